@@ -63,6 +63,27 @@ Fixpoint fed_stream (c : nat) (calls : list (list bufs)) (outs : list bufs) : li
   | _, _ => []
   end.
 
+(* calls that come with their own buffer list: channel c is fed when the first input has a
+   buffer c AND the node currently has an output buffer c *)
+Definition chan_fed (c : nat) (call : list bufs * bufs) : option buffer :=
+  match chan_in c (fst call), nth_error (snd call) c with
+  | Some ib, Some _ => Some ib
+  | _, _ => None
+  end.
+
+Definition in_stream_v (c : nat) (calls : list (list bufs * bufs)) : list Smp :=
+  flat_map (fun call => match chan_fed c call with Some ib => ib | None => [] end) calls.
+
+Fixpoint fed_stream_v (c : nat) (calls : list (list bufs * bufs)) (outs : list bufs) : list Smp :=
+  match calls, outs with
+  | call :: ct, o :: ot =>
+    match chan_fed c call, nth_error o c with
+    | Some _, Some ob => ob ++ fed_stream_v c ct ot
+    | _, _ => fed_stream_v c ct ot
+    end
+  | _, _ => []
+  end.
+
 (* one channel of one delay call *)
 Definition chan_rel (r : option (fixed Smp)) (ib ob : option buffer)
   (r' : option (fixed Smp)) (ob' : option buffer) : Prop :=
